@@ -31,3 +31,31 @@ package momentum
 //@   modifies nothing
 //@   loop 1
 //@     invariant forall k int :: 0 <= k && k <= rangeindex ==> !(sporks[k].Activated && sporks[k].EnforcementHeight <= frontier.Height && sporks[k].Id == implemented.SporkId)
+
+// ---- C15: lookups by peer-supplied hash / number never panic ----------------------------------------------------------------
+// an unknown hash or height yields (nil, nil)
+//@ func momentumStore.GetMomentumByHash(ms, hash) -> (m, err)
+//@   trusted
+//@   ensures err == nil && m != nil ==> m.Hash == hash && 1 <= m.Height && m.Height < pow2(62)
+//@   modifies nothing
+//@ func momentumStore.GetMomentumByHeight(ms, height) -> (m, err)
+//@   trusted
+//@   ensures err == nil && m != nil ==> m.Height == height
+//@   modifies nothing
+
+//@ func momentumStore.GetMomentumsByHash(ms, blockHash, higher, count) -> (list, err)
+//@   safety
+//@   requires ms != nil && count <= 1024
+//@   ensures[at-most-count] err == nil ==> len(list) <= count
+
+//@ func momentumStore.GetMomentumsByHeight(ms, height, higher, count) -> (list, err)
+//@   safety
+//@   requires ms != nil && count <= 1024 && height < pow2(62)
+//@   ensures[at-most-count] err == nil ==> len(list) <= count
+
+//@ func momentumStore.getMomentumsByRange(ms, from, to) -> (list, err)
+//@   safety
+//@   requires ms != nil && from <= to && to - from <= 1024
+//@   ensures[exact-range] err == nil ==> len(list) == to - from
+//@   loop 1
+//@     invariant from <= i && i <= to && len(list) == i - from
